@@ -152,6 +152,17 @@ fn near_misses(n: &NameCfg, class: &str, t0: i64) -> Vec<String> {
                 }
             }
         }
+        // a dot inside the fixed name part: names derived with Path::with_extension / file_stem
+        // lose everything after it ("my.app_r00000" -> "my.gz")
+        "dot-truncated" => {
+            if let Some(i) = fixed.rfind('.') {
+                if i > 0 {
+                    v.push(format!("{}.gz", &fixed[..i]));
+                    v.push(fixed[..i].to_string());
+                    v.push(format!("{}{sfx}", &fixed[..i]));
+                }
+            }
+        }
         "missing-infix" => {
             if n.naming != NamingK::NoRotation && !fixed.is_empty() {
                 v.push(format!("{fixed}{sfx}"));
@@ -206,6 +217,7 @@ const CLASSES: &[&str] = &[
     "missing-infix",
     "broken-timestamp",
     "suffix-overlap",
+    "dot-truncated",
 ];
 
 #[derive(Debug, Clone, PartialEq, Eq)]
@@ -511,6 +523,20 @@ fn run_case_mode(ctx: &mut CaseCtx, mode: Mode) -> CaseResult {
             } else {
                 names.basename = tail;
             }
+        }
+    }
+    if class == "dot-truncated" {
+        // e.g. basename "my.app", mostly without suffix (then the dot is the last one of the name)
+        let tail = (*rng.pick(&["my.app", "app-1.2", "srv.d"])).to_string();
+        if names.start_ts.is_none() {
+            if names.discr.is_some() {
+                names.discr = Some(tail);
+            } else {
+                names.basename = tail;
+            }
+        }
+        if rng.chance(2, 3) {
+            names.suffix = None;
         }
     }
     let mk_cfg = |dir: &Path| {
